@@ -283,7 +283,11 @@ def generate(run_seed, tier):
     c = st('config')
     cfg = {'R': c.choice([1, 1, 2, 3]), 'part': c.choice(
         ['dict', 'dict', 'spectrum', 'reload', 'reload', 'solution']),
-        'decoy_first': st('decoy').random() < 0.35}
+        'decoy_first': st('decoy').random() < 0.35,
+        # the same file is first loaded with replacement values for some
+        # constructor keywords (an option of the loader); a plain load of
+        # the file afterwards owes the stored values
+        'replace_first': st('decoy').random() < 0.3}
     o = st('ops')
     ops = [['open', 'w']]
     if cfg['part'] == 'solution':
@@ -1185,6 +1189,17 @@ def check_reload(viol, out, fname, model, cfg):
             out.bump('probes', 'another_file_loaded_first')
         except Exception:
             out.bump('probes', 'decoy_failed')
+    if cfg.get('replace_first'):
+        rd = {'T': 1234.5, 'clouds_pressure': 3210.0, 'planet_mass': 0.77,
+              'planet_radius': 0.91, 'temperature': 4321.0, 'radius': 0.83,
+              'T_irr': 1111.0, 'cia_pairs': ['H2-H2'],
+              'mix_ratio': 1.5e-6, 'atm_min_pressure': 1.0,
+              'lee_mie_radius': 0.02, 'flat_mix_ratio': 1e-12}
+        try:
+            taurex_hdf5_to_model(fname, replacement_dict=rd)
+            out.bump('probes', 'loaded_with_replacements_first')
+        except Exception:
+            out.bump('probes', 'replacement_load_failed')
     try:
         m2 = taurex_hdf5_to_model(fname)
         m2.build()
